@@ -1188,7 +1188,18 @@ func (st *lifeState) evaluate(clientsFinished bool) {
 			}
 		}
 	}
+	// Once a Stop that can expire (deadline or cancellable context) is under way, deliveries may be
+	// abandoned by design, so acknowledgement order is only demanded of events before the first one.
+	abortableStop := 0
+	for _, s := range stops {
+		if s.CtxKind != 0 && (abortableStop == 0 || s.InvokeStep < abortableStop) {
+			abortableStop = s.InvokeStep
+		}
+	}
 	for _, ne := range nils {
+		if abortableStop > 0 && ne.step >= abortableStop {
+			continue
+		}
 		for _, i := range batches {
 			if i.IsFlush || i.NRows == 0 || !i.accepted() || !i.receivable() {
 				continue
@@ -1202,12 +1213,10 @@ func (st *lifeState) evaluate(clientsFinished bool) {
 				if len(i.Answers) > 0 {
 					ans = fmt.Sprintf("answered only at step %d", i.Answers[0].Step)
 				}
-				if i.Op.Done == 3 || i.Op.Done == 2 {
-					// An unbuffered channel's answer is observed when its receiver runs; the
-					// engine's send completed no later than that. Only buffered channels give a
-					// receiver-independent answer time, so only they decide ordering.
-					continue
-				}
+				// Unbuffered channels decide ordering too: a send on one completes in the very
+				// step its receiver's receive completes (rendezvous), so the recorded step is the
+				// engine's send step, and an engine that answers in acceptance order cannot have
+				// completed a later answer in an earlier step.
 				r.Violate("C07", "ack-overtakes-earlier-batch", "%s got nil at step %d although batch %s, accepted at step %d before it was invoked (step %d), was %s",
 					ne.who, ne.step, i.ID, i.RetStep, ne.invoke, ans)
 				continue
